@@ -73,18 +73,6 @@ Spec == Init /\ [][Next]_vars
 IsCase == expr # NoExpr
 DocCode(d) == [i \in 1 .. Len(d) |-> <<d[i].k, d[i].n, d[i].p, d[i].v, d[i].px, d[i].ns>>]
 
-\* prefixes used by the name tests of an expression
-RECURSIVE PrefixesOfSteps(_), PrefixesOf(_)
-PrefixesOfSteps(steps) ==
-    IF steps = <<>> THEN {}
-    ELSE (IF Head(steps).nt.k = "name" /\ Head(steps).nt.px # "" THEN {Head(steps).nt.px} ELSE {})
-         \cup UNION {PrefixesOf(Head(steps).preds[i]) : i \in 1 .. Len(Head(steps).preds)}
-         \cup PrefixesOfSteps(Tail(steps))
-PrefixesOf(e) ==
-    CASE e.t = "path" -> PrefixesOfSteps(e.steps)
-      [] e.t = "call" -> UNION {PrefixesOf(e.args[i]) : i \in 1 .. Len(e.args)}
-      [] OTHER -> {}
-
 MustFail == cfg.map /\ ~(PrefixesOf(expr) \subseteq DOMAIN cfg.ns)
 \* namespace-uri() needs a navigator that exposes URIs
 Claimed == ~(expr.t = "call" /\ expr.f = "namespace-uri" /\ ~cfg.uri)
